@@ -99,8 +99,19 @@ def check_centre(x, y, endX, endY, radius, clockwise, res):
     tol = 1e-9 * max(R, chord, 1.0)
     if abs(d1 - R) > tol or abs(d2 - R) > tol:
         oblique = (endX != x) and (endY != y)
+        mech = None
+        if oblique:
+            # the recorded finding K1 is this exact arithmetic (the y component of the bisector direction has the wrong sign);
+            # a wrong centre that is not the one K1 produces is something else
+            e = -1 if (bool(clockwise) ^ (radius < 0)) else 1
+            dx, dy = endX - x, endY - y
+            h = math.sqrt(max(0.0, radius * radius - (chord / 2) * (chord / 2)))
+            ki = (x + endX) / 2 + e * h * (-dy / chord) - x
+            kj = (y + endY) / 2 + e * h * (-dx / chord) - y
+            if abs(i - ki) <= tol and abs(j - kj) <= tol:
+                mech = "r_form_oblique_chord_centre"
         return (["centre (%.9f, %.9f) is at distance %.9f from the start and %.9f from the end, expected |R| = %.9f"
-                 % (cx, cy, d1, d2, R)], "r_form_oblique_chord_centre" if oblique else None)
+                 % (cx, cy, d1, d2, R)], mech)
     return [], None
 
 
